@@ -294,4 +294,67 @@ theorem traceOk_iff {S : Type} [DecidableEq S] (isErr : S → Bool) (init : S) (
 theorem judgeConc_none_iff {S : Type} [DecidableEq S] (o : ConcObs S) : judgeConc o = none ↔ ConcOk o := by
   unfold judgeConc; split <;> simp [*]
 
+/-! ### clients that know nothing before their activation -/
+
+theorem replayO_some {S : Type} (k : S) (l : List S) : replayO (some k) l = some (replay k l) := by
+  induction l generalizing k with
+  | nil => rfl
+  | cons a l ih => simpa [replayO, replay] using ih a
+
+theorem replayO_append {S : Type} (k : Option S) (a b : List S) : replayO k (a ++ b) = replayO (replayO k a) b := by
+  simp [replayO, List.foldl_append]
+
+/-- a non-empty list of messages that all carry `x` leaves the client with `x` -/
+theorem replayO_all {S : Type} (k : Option S) (l : List S) (x : S) (hne : l ≠ []) (hall : ∀ m ∈ l, m = x) :
+    replayO k l = some x := by
+  induction l generalizing k with
+  | nil => exact absurd rfl hne
+  | cons a l ih =>
+    have ha : a = x := hall a (by simp)
+    by_cases hl : l = []
+    · subst hl; simp [replayO, ha]
+    · have := ih (some a) hl (fun m hm => hall m (by simp [hm]))
+      simpa [replayO] using this
+
+theorem reconstructsO_some {S : Type} (k : S) (tr : List (Obs S)) : ReconstructsO (some k) tr ↔ Reconstructs k tr := by
+  induction tr generalizing k with
+  | nil => simp [ReconstructsO, Reconstructs]
+  | cons o rest ih =>
+    simp only [ReconstructsO, Reconstructs, replayO_some, Option.some.injEq]
+    constructor
+    · rintro ⟨h1, h2⟩; exact ⟨h1, (ih _).1 h2⟩
+    · rintro ⟨h1, h2⟩; exact ⟨h1, (ih _).2 h2⟩
+
+theorem judgeFromO_none_iff {S : Type} [DecidableEq S] (isErr : S → Bool) (i : Nat) (k : Option S) (prev : S)
+    (tr : List (Obs S)) : judgeFromO isErr i k prev tr = none ↔ TraceOkO isErr k prev tr := by
+  induction tr generalizing i k prev with
+  | nil => simp [judgeFromO, TraceOkO]
+  | cons o rest ih =>
+    simp only [judgeFromO, TraceOkO]
+    by_cases h : OpOkO isErr k prev o
+    · simp [h, ih]
+    · simp [h]
+
+theorem judgeO_none_iff {S : Type} [DecidableEq S] (isErr : S → Bool) (prev : S) (tr : List (Obs S)) :
+    judgeO isErr prev tr = none ↔ TraceOkO isErr none prev tr := judgeFromO_none_iff isErr 0 none prev tr
+
+/-- a stream accepted by the monitor satisfies the clauses of the statement for a client that knew nothing -/
+theorem traceOkO_imp {S : Type} [DecidableEq S] (isErr : S → Bool) (k : Option S) (prev : S) (tr : List (Obs S))
+    (h : TraceOkO isErr k prev tr) : ReconstructsO k tr ∧ NeverPhantom tr ∧ RecoveryAnnounced isErr prev tr := by
+  induction tr generalizing k prev with
+  | nil => simp [ReconstructsO, NeverPhantom, RecoveryAnnounced]
+  | cons o rest ih =>
+    simp only [TraceOkO, OpOkO] at h
+    obtain ⟨⟨h1, h2, _, h4⟩, h5⟩ := h
+    obtain ⟨i1, i2, i3⟩ := ih _ _ h5
+    refine ⟨⟨h4, i1⟩, ?_, ⟨h2, i3⟩⟩
+    intro ob hob m hm
+    simp only [List.mem_cons] at hob
+    rcases hob with rfl | hob
+    · exact h1 m hm
+    · exact i2 ob hob m hm
+
+theorem judgeConcA_none_iff {S : Type} [DecidableEq S] (o : ConcObsA S) : judgeConcA o = none ↔ ConcOkA o := by
+  unfold judgeConcA; split <;> simp [*]
+
 end Frappy.Update
